@@ -78,6 +78,7 @@ def configs(rtf, pl, seed=0, limit=None):
                 bkw["border_bottom"] = [["single"], [""]]
                 bkw["border_top"] = [["single", ""]]
                 bkw["text_justification"] = ["l", "c"]
+                bkw["text_format"] = [["b"], [""], ["i"]]            # a row pattern shorter than the table, recycled over the rows (and over the pages)
             if look in ("notes_table", "notes_par"):
                 kw["rtf_footnote"] = rtf.RTFFootnote(text="fn text", as_table=(look == "notes_table"))
                 kw["rtf_source"] = rtf.RTFSource(text="src text", as_table=(look == "notes_table"))
